@@ -11,8 +11,8 @@ Proof. exact rank_choice_sound. Qed.
 Theorem C05_rank_choice_minimal : forall (S : list Q) (d2 : Q), nonneg S ->
   let k := ndrop S d2 in (k < length S)%nat -> (d2 < tail_energy S (length S - (k + 1)))%Q.
 Proof. exact rank_choice_minimal. Qed.
-Theorem C05_rank_bounds : forall (S : list Q) d2 rmax, (1 <= rmax)%nat -> (1 <= length S)%nat ->
-  (1 <= choose_rank S d2 rmax <= Nat.min rmax (length S))%nat.
+Theorem C05_rank_bounds : forall (S : list Q) d2 rmax null, (1 <= rmax)%nat -> (1 <= length S)%nat ->
+  (1 <= choose_rank S d2 rmax null <= Nat.min rmax (length S))%nat.
 Proof. exact rank_bounds. Qed.
 
 Section C05.
